@@ -7,8 +7,9 @@ PROPS = {
         "explanation": "Decides structural clauses of 'no stuck output': (R-COORD) every State variant created at a "
                        "coordinate is removable by Release at that coordinate and the three coordinate predicates agree; "
                        "(R-STATE-PUSH) arms of do_action that create coordinate-keyed state do so on every path and the custom "
-                       "press handler only runs when its state was stored.",
-        "not_decided": "bounded-time liveness over all histories; diff logic prev_keys/cur_keys; timeout arithmetic",
+                       "press handler only runs when its state was stored."
+                       " Added in session 4: (R-CUSTOM-LOSSLESS) the release of a custom action is never discarded or merged away inside the layout; (R-FOLD-ACC) the release handler's fold hands its accumulator on; (R-SCRATCH) no handler returns with keys left in the scratch list; (R-OVERFLOW-ALL) the overflow path resolves every undecided tap-hold; (R-LAYER-STACK-SET) a layer is searched once; (R-NAME-TABLE) keywords map to the variant of their name; R-IDLE restricted to the structs this property is about.",
+        "not_decided": "bounded-time liveness over all histories; diff logic prev_keys/cur_keys; timeout arithmetic; value-level conditions (7f of DESIGN.md)",
     },
     "C02": {
         "rules": [r_panic.run_rt, r_prodcons.run, r_rec.run_rt, r_coordspace.run, r_lock.run, r_opcode.run_all, r_loopvar.run_rt, r_tickorder.rule_rpt_order, r_tickorder.rule_rpt_queue, r_tickorder.rule_queue_trans, r_srckeys.run, r_depth.run, r_tickorder.rule_stack_dedup],
@@ -27,7 +28,8 @@ PROPS = {
                        "such as zch() included, closures given to thread::spawn excluded. Library calls with panicking "
                        "preconditions (heapless extend, ArrayDeque::drain, slice::swap, clone_from_slice, RefCell::borrow_mut, "
                        "bytemuck::cast_slice, chunks/windows of size 0) are part of the census. The rules that reviewed table entries "
-                       "lean on (R-OPCODE-* for the switch evaluator's asserts) are run as part of this check.",
+                       "lean on (R-OPCODE-* for the switch evaluator's asserts) are run as part of this check."
+                       " Added in session 4: (R-SRC-KEYS) src_keys hold KeyCode / NoOp only (producer side of the unguarded Src recursion); (R-DEPTH) the parser bounds nesting incl. aliases, so do_action's recursion is bounded; (R-LAYER-STACK-SET) no self-requeueing switch through a duplicated layer.",
         "not_decided": "value-level invariants listed in the reviewed table (each spelled out in the evidence); bounded work per "
                        "millisecond; stack depth (recursion through rpt-any is a known limitation, see DESIGN.md); std / dependency "
                        "internals. (R-REC/rt) recursive calls on the event path take their action argument from a sub-structure of the "
@@ -49,7 +51,8 @@ PROPS = {
                        "finite source, has a strictly moving variant (e.g. the remainder slice returned by parse_macro_item is a "
                        "strict suffix), or is in a reviewed table. (R-DEPTH) the recursion depth is bounded by explicit guards: the "
                        "reader's open-list stack, the action nesting counter that every cycle of the action parsers passes "
-                       "through, the template expansion nesting and size budget, the variable chain length.",
+                       "through, the template expansion nesting and size budget, the variable chain length."
+                       " Added in session 4: (R-SPAN-OWN-TEXT) a span is applied to its own file's text; R-DEPTH clauses for alias bookkeeping (recorded from the reset counter, maximum raised to the compared sum), actions stored twice charged twice, any-key entries charged per position, resolved variable size and concat length bounded.",
         "not_decided": "termination of loops, stack depth (self-referential defvar recursion is a known limitation), miette internals, "
                        "char-boundary safety of span slicing beyond the reviewed lexer invariant",
     },
@@ -58,7 +61,8 @@ PROPS = {
         "explanation": "Narrow: (R-FILL) the default fill of unassigned layer positions is decided from block-unmapped-keys and the "
                        "key only, never from the layer index, and position 0 is forced to NoOp; decides the release half of layered remapping — every state a press creates is keyed on the "
                        "coordinate (never the layer) and removed by Release at that coordinate (R-COORD); the key / layer / custom "
-                       "arms of do_action push their state on every path (R-STATE-PUSH).",
+                       "arms of do_action push their state on every path (R-STATE-PUSH)."
+                       ' Added in session 4: (R-LAYER-ORDER) layer names and bodies are listed in one order; (R-CONST-NAME) flag predicates test the flag they are named after; (R-LAYER-STACK-SET).',
         "not_decided": "equality with the layered-keymap model: search order of held layers, output ordering, one event per "
                        "millisecond — functions of run-time values",
     },
@@ -69,7 +73,8 @@ PROPS = {
                        "timeout_action field; Layout::tick and process_extra_waitings dispatch the four WaitingAction variants to "
                        "the same callees; (R-WAIT-OUTCOME) in handle_hold_tap, Hold is built only inside a HoldTapConfig arm (early "
                        "trigger) and the common release-vs-timeout tail builds only Tap/Timeout; (R-GATE) queue.pop_front() in tick "
-                       "is reachable only with waiting == None, extra_waiting empty and the processing pause not active.",
+                       "is reachable only with waiting == None, extra_waiting empty and the processing pause not active."
+                       ' Added in session 4: (R-WAIT-LOOKAHEAD, R-WAIT-SCAN) the custom decision closures scan the queue in order, without consuming or cloning it, and stop only at a decision; (R-WAIT-SLOT) the slot index tests separate -1 from 0..; (R-OVERFLOW-ALL); (R-NOWRAP); (R-REBUILD) the chord pass keeps hold / tap / timeout_action apart.',
         "not_decided": "the timeout boundary tick (> vs >=), the early-trigger predicates of each variant, ordering of replayed "
                        "keys — value-level",
     },
@@ -79,7 +84,8 @@ PROPS = {
                        "delegates to an inner action, or defers the action (R-OSH-ARMS); macro Press/Tap events notify too. (R-COUNTDOWN) the "
                        "one-shot timeout, like every count-down timer on the tick path, expires on its level: it is never decremented "
                        "only under a test of its own value and compared again afterwards (edge-triggered expiry leaves a timer that is "
-                       "already zero armed for ever).",
+                       "already zero armed for ever)."
+                       ' Added in session 4: (R-OSH-END) the end of a one-shot empties every list of the state, and the lists have one capacity; (R-CUSTOM-LOSSLESS) coordinates are released through the queued Release event only; (R-EVERY-ITEM) every deferred release is performed; (R-NOWRAP) timers never wrap; R-IDLE restricted to OneShotState.',
         "not_decided": "which key is 'the next one', timeout arithmetic, stacking semantics — run-time values",
     },
     "C11": {
@@ -103,7 +109,9 @@ PROPS = {
                        "is_idle / can_block_update_idle_waiting (transitively), is covered by a container those read, or is listed "
                        "in the reviewed exemption table with its reason; (R-LOOP) the blocking recv() is reachable only on the true "
                        "edge of can_block, and on wake-up last_tick is overwritten with a value derived from Instant::now() alone "
-                       "before handle_time_ticks, after handle_input_event.",
+                       "before handle_time_ticks, after handle_input_event."
+                       ' Added in session 4: (R-IDLE-SNAPSHOT) the flag is an inequality of the two counts and also learns of caps-word ended by an action; (R-ZCH-IDLE) zippychord is not idle in the states in which its tick counts unconditionally; (R-NOWRAP).'
+                       ' Added in session 4: (R-BTN-TABLES) OsCode -> Btn and Btn -> OsCode are inverse.',
         "not_decided": "full two-run equivalence for all continuations; wall-clock to tick conversion arithmetic; the exemption "
                        "table's semantic reasons are reviewed, not machine-checked",
     },
@@ -113,7 +121,8 @@ PROPS = {
                        "Release event from the same source for every Press event it emits (single keys, output chords, held "
                        "modifier groups); (R-CANCEL) each of the sites that clear the running macros also removes the macro-held "
                        "fake keys; (R-SEQ-CUSTOM) a macro's custom/unicode item changes state only on a tick where its event can "
-                       "be reported.",
+                       "be reported."
+                       ' Added in session 4: (R-STATES-ORDER) Layout.states keeps its order (order of macro custom items); (R-MACRO-EVICT-ALL) every remaining Release of an evicted macro is applied.',
         "not_decided": "inter-step delays, 'no two steps in one millisecond', repeat-while-held, eviction from the 4-slot ring "
                        "(see C01/C02 R-EVICT) — run-time values",
     },
@@ -124,7 +133,8 @@ PROPS = {
                        "chord-selecting lookup in process_presses filters on disabled layers (sibling agreement); (R-CH1-GUARD) v1: "
                        "every fold/retain over the queued events reads the event's age together with the event (chord window). Also decides that the two walkers that bind (chord ...) keys to their defchords group "
                        "(find_chords_coords, fill_chords) pass every nested action of every Action variant — derived from the "
-                       "Action type — to their recursive call, so a chord key is found wherever the grammar allows an action.",
+                       "Action type — to their recursive call, so a chord key is found wherever the grammar allows an action."
+                       ' Added in session 4: (R-EVERY-ITEM) the chord action is repeated on every participating coordinate; (R-CHV2-TRUNCATED) the truncated candidate list is checked with is_full; (R-REBUILD) lists are rebuilt one for one.',
         "not_decided": "exact-set activation, press-order independence, decomposition order, v2 candidate search — run-time values",
     },
     "C12": {
@@ -134,7 +144,8 @@ PROPS = {
                        "(R-SEQ-BITS) key-code / modifier / overlap bit fields are disjoint and every modifier mask is a distinct "
                        "single bit; (R-SEQ-RESET) SequenceState::activate writes every field of the state; (R-SEQ-NORM) the keys the "
                        "run time merges (right->left modifiers) carry equal modifier bits in the parser's encoding; "
-                       "(R-SEQ-SUPPRESS) typed keys are pressed at the OS only in visible-backspaced mode / outside sequence mode.",
+                       "(R-SEQ-SUPPRESS) typed keys are pressed at the OS only in visible-backspaced mode / outside sequence mode."
+                       ' Added in session 4: (R-ARM-TWINS) alternative activate calls of the leader arm take the payload alike; (R-ARG-NAMES).',
         "not_decided": "exactly-once firing, backtracking, timeout boundary, permutations of overlap groups — run-time values",
     },
     "C13": {
@@ -143,7 +154,8 @@ PROPS = {
                        "no-overrides early return precedes every mutation; (R-OVR-MODS) mask_for_key returns Some for exactly the "
                        "keys OsCode::is_modifier accepts and the eight masks are distinct single bits; (R-OVR-BOTH) the tick path "
                        "and the repeat path both run override_keys before any inspection of cur_keys/prev_keys; (R-OVR-RELEASE) "
-                       "release-on-activation erases keys taken from the override scratch only under the !is_modifier() guard.",
+                       "release-on-activation erases keys taken from the override scratch only under the !is_modifier() guard."
+                       ' Added in session 4: (R-IDLE-SNAPSHOT) comparison and caps-word clauses.',
         "not_decided": "longest-match selection, substitution and restoration — computations over run-time key lists",
     },
     "C15": {
@@ -154,7 +166,8 @@ PROPS = {
                        "derives from the parsed Cfg is assigned from the same Cfg source on reload or is exempt with a reason, "
                        "new and new_from_str agree, and zippychord is reconfigured on every successful path; (R-RELOAD-GATE) the "
                        "reload is reachable only through tests of the request flag and of keys-up / 1 s idle, and the flag is "
-                       "cleared first; (R-RELOAD-NOTIFY) both notifications are built and sent, prev_layer comes from the new layout.",
+                       "cleared first; (R-RELOAD-NOTIFY) both notifications are built and sent, prev_layer comes from the new layout."
+                       ' Added in session 4: (R-RELOAD-INDEX) no wrapping arithmetic and no dependence on loaded_cfg_idx in the chosen index; (R-IDLE-COUNTER) each consumer of the idle counter alone makes it count (oracle-driven reachability); three more fields in R-RELOAD-RUNTIME.',
         "not_decided": "behavioural equivalence of the post-reload state with a fresh instance (dynamic state such as caps-word, "
                        "scroll states, recorded macros is deliberately retained); file index selection arithmetic",
     },
@@ -163,7 +176,8 @@ PROPS = {
         "explanation": "Narrow: decides the ordering preconditions of transparent indirection — the pre-processing stages are chained "
                        "include -> platform -> env -> template, each consuming the previous stage's result (data-flow order of the "
                        "and_then chain), parse_vars runs after pre-processing and dominates every parser that (transitively) "
-                       "resolves variables, and parse_aliases dominates parse_layers.",
+                       "resolves variables, and parse_aliases dominates parse_layers."
+                       ' Added in session 4: (R-PIPELINE) platform / environment filters run before and after template expansion; (R-SPAN-OWN-TEXT); (R-VARS-PASSED) functions that have the variable table pass it on.',
         "not_decided": "that a rewritten configuration behaves identically; substitution semantics inside templates and variables "
                        "(e.g. simultaneous vs sequential parameter substitution) — relations between two programs",
     },
@@ -173,7 +187,8 @@ PROPS = {
                        "type) to its recursion and records every key-code-bearing variant (R-TRAVERSE, R-RPT-TABLE); in "
                        "handle_repeat_actual every write of a repeat is reachable only through a 'key currently held' test, at "
                        "most one repeat is written per event, the override pass precedes the tests, and the sequence input modes "
-                       "in which the repeat path continues are modes in which typed keys are really pressed at the OS (R-RPT-GUARD).",
+                       "in which the repeat path continues are modes in which typed keys are really pressed at the OS (R-RPT-GUARD)."
+                       " Added in session 4: (R-KC-OUTPUT) override outputs are looked up for the output key and listed before the key's own code; (R-SEQ-HIDDEN) hidden-mode bookkeeping matches what is pressed; (R-ARG-NAMES) the repeat path passes the unmod / unshift lists in the right order.",
         "not_decided": "which of several output keys is preferred; layer search order — run-time values",
     },
     "C10": {
@@ -184,7 +199,8 @@ PROPS = {
                        "name states (value-set data-flow over the decoder; shift amounts and field masks agree; BooleanOperator "
                        "to_u16/from are inverse); (c) 2-word opcodes are emitted, decoded, skipped by the evaluator and pushed by the "
                        "parser as 2 words; (d) parser limits (depth, recency, length) are the evaluator's limits (same const items), "
-                       "and the end index of and/or/not is patched after the children are compiled.",
+                       "and the end index of and/or/not is patched after the children are compiled."
+                       " Added in session 4: (R-BOOL-SHORTCUT) abstract evaluation of the evaluator's two short-circuit tests over {or, and, not} x {true, false}: they agree and match the operators' truth table; (R-OPCODE-CODEC) decoder masks have the width of the bounds the constructors assert; (R-IDLE-KEYTIMING).",
         "not_decided": "the evaluator's short-circuit logic, break/fallthrough iteration, fork's trigger test, lossy tick "
                        "compression numerics — these are functions of run-time values",
     },
@@ -194,7 +210,8 @@ PROPS = {
                        "(key press, key release, on-idle, TCP) calls, and each of press/release/tap/toggle produces layout events; "
                        "(R-COORD) toggle's 'is it pressed' predicate covers exactly the State variants that carry a coordinate; "
                        "(R-VK-ONCE) the on-idle entry is removed on the path that fires it; (R-VK-REARM) re-activating a "
-                       "hold-for-duration key overwrites the remaining time with a value independent of the old one.",
+                       "hold-for-duration key overwrites the remaining time with a value independent of the old one."
+                       " Added in session 4: (R-VK-TOGGLE-QUEUED) toggle, press and tap decide on the key's queued / current state; (R-IDLE-COUNTER); (R-NAME-TABLE); (R-NOWRAP).",
         "not_decided": "D-1/D/D+1 timing of hold-for-duration and on-idle; idle measurement — run-time values",
     },
     "C19": {
@@ -202,7 +219,8 @@ PROPS = {
         "explanation": "Decides: (R-DM-RELEASE) in record_press / begin_record_macro / stop_macro every returned recording is "
                        "dominated by add_release_for_all_unreleased_presses and nothing that writes macro_items runs between that "
                        "call and the return; (R-DM-REC) in play_macro every queueing of replay items is dominated by inserting the "
-                       "macro id into active_macros, and is unreachable from the true edge of active_macros.contains.",
+                       "macro id into active_macros, and is unreachable from the true edge of active_macros.contains."
+                       ' Added in session 4: (R-DM-SAVE-ID) id and events of a saved recording come from one returned pair; (R-DM-ARMS) press and release pace alike; (R-DM-PLAY-GUARD) play of the macro being recorded is ignored and every input press is recorded.',
         "not_decided": "replay fidelity (same events in the same order), recorded delays, truncation arithmetic — run-time values; "
                        "the record-stop index arithmetic is audited under C02",
     },
